@@ -168,7 +168,14 @@ def doc_to_tree(tokens):
         elif kind == 'skip':
             stack[-1].append({'<class>': 'bogus-class', 'name': 'x'} if tok['why'] == 'unknown-class' else 42)
         elif kind == 'broken':
-            stack[-1].append({'<class>': 'component', 'name': scope_name(['Broken'])})
+            if tok.get('how') == 'interface':
+                # local types parse fine, the out-event with a reply value is refused: the parser gives up late
+                bad = j_decl({'kind': 'interface', 'name': ['BrokenI'], 'pay': {'events': [event('Ok', 'in'), event('Bad', 'out', ['bool'])]},
+                              'types': [{'kind': 'enum', 'name': ['LeftE'], 'pay': 'p0'}, {'kind': 'extern', 'name': ['LeftX'], 'pay': 'p0'},
+                                        {'kind': 'subint', 'name': ['LeftS'], 'pay': 'p0'}]})
+                stack[-1].append(bad)
+            else:
+                stack[-1].append({'<class>': 'component', 'name': scope_name(['Broken'])})
         else:
             raise ValueError(kind)
     return root
